@@ -85,6 +85,8 @@ class ShardStats:
         self.last_failure: Optional[Tuple[Any, Violation]] = None
         self.failures = 0
         self.fatal: Optional[str] = None
+        self.by_sig: Dict[str, Tuple[Any, Violation]] = {}
+        self.collect_all = False
 
     def _alarm(self, signum, frame):
         raise CaseTimeout()
@@ -160,6 +162,10 @@ class ShardStats:
 
         self.failures += 1
         self.last_failure = (jenc(case), v)
+
+        if v.sig not in self.by_sig and len(self.by_sig) < 8:
+            self.by_sig[v.sig] = (jenc(case), v)
+
         raise v
 
     def result(self) -> Dict[str, Any]:
@@ -175,6 +181,16 @@ class ShardStats:
             case, v = self.last_failure
             out['violation'] = {'case': case, 'clause': v.clause,
                                 'detail': v.detail, 'sig': v.sig}
+
+        out['violations'] = []
+
+        if self.collect_all:
+            # enumerated families keep going: one (first) case per signature
+            out['violations'] = [{'case': c, 'clause': v.clause,
+                                  'detail': v.detail, 'sig': v.sig}
+                                 for c, v in self.by_sig.values()]
+        elif out['violation']:
+            out['violations'] = [out['violation']]
 
         return out
 
@@ -198,13 +214,16 @@ def run_shard(args) -> Dict[str, Any]:
             fam.worker_init()
 
         if fam.enumerate is not None:
+            stats.collect_all = True
+
             for i, case in enumerate(fam.enumerate(tier)):
                 if i % nshards != shard:
                     continue
                 try:
                     stats.run(case)
                 except Violation:
-                    break
+                    if stats.failures > 200:
+                        break
         else:
             import hypothesis
             from hypothesis import HealthCheck, Phase, given, settings
@@ -235,7 +254,7 @@ def run_shard(args) -> Dict[str, Any]:
     except BaseException:  # pylint: disable=broad-except
         return {'family': famname, 'evaluations': 0, 'nontrivial': [],
                 'classes': {}, 'samples': {}, 'known_hits': {},
-                'violation': None,
+                'violation': None, 'violations': [],
                 'error': 'shard %d of %s: %s' % (shard, famname,
                                                  traceback.format_exc())}
 
@@ -323,6 +342,7 @@ def main(prop: str, tier: str, seed: int, only: Optional[str] = None,
     seen_labels = set()
     known_hits: Counter = Counter()
     violations = []
+    seen_sigs = set()
 
     for r in sorted(results, key=lambda r: r['family']):
         fam_evals[r['family']] += r['evaluations']
@@ -341,8 +361,10 @@ def main(prop: str, tier: str, seed: int, only: Optional[str] = None,
         for idx, n in r['known_hits'].items():
             known_hits[int(idx)] += n
 
-        if r['violation']:
-            violations.append((r['family'], r['violation']))
+        for viol in r['violations']:
+            if (r['family'], viol['sig']) not in seen_sigs:
+                seen_sigs.add((r['family'], viol['sig']))
+                violations.append((r['family'], viol))
 
     missing = []
 
